@@ -1,5 +1,5 @@
 #!/bin/bash
-# tools/sandbox_eval.sh <name> <patch> <check>...
+# tools/sandbox_eval.sh <name> <patch|-> <check>...      ("-": the unchanged tree; VERIF_SEED is passed through)
 # Evaluates a patch WITHOUT touching /repo: a private copy of the repository (git worktree) and a private snapshot of
 # /verif (harness Cargo.toml redirected to the copy) under /tmp/sbx-<name>; prints one line per check; removes everything.
 set -u
@@ -11,7 +11,7 @@ rsync -a --exclude replays --exclude evidence /verif/ $S/verif/
 mkdir -p $S/verif/replays $S/verif/evidence
 sed -i "s|/repo/|$S/repo/|g" $S/verif/harness/Cargo.toml
 rm -rf $S/verif/.build/tie
-( cd $S/repo && git apply "$patch" ) || { echo "$name: patch does not apply"; git -C /repo worktree remove --force $S/repo; rm -rf $S; exit 2; }
+[ "$patch" = "-" ] || ( cd $S/repo && git apply "$patch" ) || { echo "$name: patch does not apply"; git -C /repo worktree remove --force $S/repo; rm -rf $S; exit 2; }
 cd $S/verif
 for c in "$@"; do
   out=$(VERIF_REPO=$S/repo ./check $c 2>&1); rc=$?
